@@ -57,6 +57,7 @@ type Clause struct {
 	File string
 	Line int
 	Tag  string // optional label
+	Guard *Clause // modifies ... if guard
 }
 
 type Contract struct {
@@ -484,9 +485,17 @@ func (p *Program) readContracts(pk *packages.Package, f *ast.File, filename stri
 				if strings.TrimSpace(part) == "nothing" {
 					continue
 				}
+				guard := ""
+				if i := strings.Index(part, " if "); i >= 0 {
+					guard = strings.TrimSpace(part[i+4:])
+					part = part[:i]
+				}
 				c := p.parseClause(filename, it.line, part)
 				if c == nil {
 					continue
+				}
+				if guard != "" {
+					c.Guard = p.parseClause(filename, it.line, guard)
 				}
 				if curLoop != nil {
 					curLoop.Modifies = append(curLoop.Modifies, c)
